@@ -46,8 +46,8 @@ def parseReq (ts : List String) : Option (QI × Bool × Bool) := do
             mn := vals.take dims, mx := vals.drop dims, ns := ns }, sw ≠ 0, hp ≠ 0)
   | _ => none
 
-def parseOp (line : String) : Option Op :=
-  match toks line with
+def parseToks (ts : List String) : Option Op :=
+  match ts with
   | "add" :: rest =>
     match parseReq rest with
     | some (q, sw, _) => some (.add q sw)
@@ -61,6 +61,8 @@ def parseOp (line : String) : Option Op :=
     | some n, some lp => some (.del n (lp ≠ 0))
     | _, _ => none
   | _ => none
+
+def parseOp (line : String) : Option Op := parseToks (toks line)
 
 def dump (s : Topo) : List String :=
   let names := sortU (s.info.map (·.name))
@@ -83,13 +85,14 @@ def showRes (compact : Bool) (r : Topo × Bool) : List String :=
 def runLines : Topo → Bool → List String → List String
   | _, _, [] => []
   | s, c, l :: ls =>
-    if l.trim = "compact" then runLines s true ls
-    else if l.startsWith "try " then
-      match parseOp (l.drop 4) with
+    match toks l with
+    | ["compact"] => runLines s true ls
+    | "try" :: rest =>
+      match parseToks rest with
       | none => "bad-op" :: runLines s c ls
       | some op => showRes c (step dims s op) ++ runLines s c ls
-    else
-      match parseOp l with
+    | ts =>
+      match parseToks ts with
       | none => "bad-op" :: runLines s c ls
       | some op =>
         let r := step dims s op
